@@ -13,6 +13,13 @@
 //! concrete here), `record` seeded random documents (gen.rs) x configurations x Unicode passwords x
 //! call sequences.  Both write the same event format, which spec/Trace_Security.tla judges.
 //!
+//! Documents also come in the state `Document::load_mem` leaves them in: `assemble` writes a file with
+//! object streams (unfiltered /ObjStm containers) and a cross-reference stream by hand, the loaded
+//! Document then holds the containers next to the objects unpacked from them and the /XRef stream
+//! object.  The call `Edit` (pos) stands for the caller changing the unencrypted document: every
+//! string of the object at position pos (and its content, if it is a stream) gets a new value; the
+//! plaintext the items are compared with is the edited one from then on.
+//!
 //! Password relations ("same" / "equiv" / "diff" to the user resp. owner password) are computed here
 //! with an own implementation of the canonical forms (PDFDocEncoding + 32 bytes for R <= 4; UTF-8 +
 //! 127 bytes for R >= 5 on alphabets where SASLprep is the identity) — not with lopdf's code.
@@ -45,12 +52,14 @@ struct Item {
     inmd: bool,
     crypt: (String, String),
     plain: Vec<u8>,
+    osm: bool, // the object is a member of an object stream container held by the document
 }
 
 fn typ_of(d: &Dictionary) -> &'static str {
     match d.get(b"Type").and_then(Object::as_name) {
         Ok(b"Metadata") => "Metadata",
         Ok(b"XRef") => "XRef",
+        Ok(b"ObjStm") => "ObjStm",
         _ => "-",
     }
 }
@@ -98,7 +107,7 @@ fn walk(o: &Object, id: (u32, u16), path: &mut Vec<Seg>, ctx: &Ctx, items: &mut 
     match o {
         Object::String(b, _) => {
             items.push(Item { id, path: path.clone(), kind: "str", insd: ctx.insd, otyp: ctx.otyp, inmd: ctx.inmd,
-                              crypt: ("none".into(), String::new()), plain: b.clone() });
+                              crypt: ("none".into(), String::new()), plain: b.clone(), osm: false });
             Some(json!({"k": "str", "pid": items.len(), "len": b.len()}))
         }
         Object::Array(a) => {
@@ -130,7 +139,7 @@ fn walk(o: &Object, id: (u32, u16), path: &mut Vec<Seg>, ctx: &Ctx, items: &mut 
             let crypt = crypt_of(s);
             path.push(Seg::Content);
             items.push(Item { id, path: path.clone(), kind: "stream", insd: false, otyp: typ, inmd: false, crypt: crypt.clone(),
-                              plain: s.content.clone() });
+                              plain: s.content.clone(), osm: false });
             path.pop();
             let pid = items.len();
             let c = Ctx { insd: true, otyp: typ, inmd: false };
@@ -142,19 +151,35 @@ fn walk(o: &Object, id: (u32, u16), path: &mut Vec<Seg>, ctx: &Ctx, items: &mut 
                 }
                 path.pop();
             }
-            Some(json!({"k": "stream", "typ": typ, "crypt": {"f": crypt.0, "n": crypt.1}, "d": v, "pid": pid, "len": s.content.len()}))
+            Some(json!({"k": "stream", "typ": typ, "crypt": {"f": crypt.0, "n": crypt.1}, "d": v, "pid": pid, "len": s.content.len(), "mem": []}))
         }
         _ => None,
     }
 }
 
-/// (abstract objects in id order, items)
+/// (abstract objects in id order, items).  An /ObjStm container gets `mem`: the positions of the objects it holds a
+/// copy of (read with lopdf's ObjectStream parser from a clone; a ghost fact for the impl-shaped layer only).
 fn abstract_of(doc: &Document) -> (Vec<Value>, Vec<Item>) {
     let mut items = vec![];
     let mut objs = vec![];
+    let ids: Vec<(u32, u16)> = doc.objects.keys().copied().collect();
+    let mut members = std::collections::BTreeSet::new();
     for (id, o) in doc.objects.iter() {
         let t = walk(o, *id, &mut vec![], &Ctx { insd: false, otyp: "-", inmd: false }, &mut items);
-        objs.push(t.unwrap_or_else(|| json!({"k": "other"})));
+        let mut t = t.unwrap_or_else(|| json!({"k": "other"}));
+        if let Object::Stream(s) = o {
+            if typ_of(&s.dict) == "ObjStm" {
+                let held = guarded(|| lopdf::ObjectStream::new(&mut s.clone()).map(|os| os.objects.keys().copied().collect::<Vec<_>>()).unwrap_or_default())
+                    .unwrap_or_default();
+                let pos: Vec<usize> = held.iter().filter_map(|m| ids.iter().position(|x| x == m).map(|p| p + 1)).collect();
+                members.extend(held);
+                t["mem"] = json!(pos);
+            }
+        }
+        objs.push(t);
+    }
+    for it in items.iter_mut() {
+        it.osm = members.contains(&it.id);
     }
     (objs, items)
 }
@@ -182,7 +207,7 @@ fn observe(doc: &Document, items: &[Item]) -> Value {
             .iter()
             .map(|it| {
                 let cur = lookup(doc, it);
-                json!({"kind": it.kind, "insd": it.insd, "otyp": it.otyp, "inmd": it.inmd,
+                json!({"kind": it.kind, "insd": it.insd, "otyp": it.otyp, "inmd": it.inmd, "osm": it.osm,
                        "crypt": {"f": it.crypt.0, "n": it.crypt.1}, "len": it.plain.len(),
                        "present": cur.is_some(), "eq": cur.map(|c| c == &it.plain[..]).unwrap_or(false)})
             })
@@ -333,7 +358,8 @@ fn snapshot(doc: &Document, with_trailer: bool) -> Value {
 fn run_case(k: usize, mut doc: Document, cfg: &Value, user: &str, owner: &str, calls: &[Value], seed: u64) -> Vec<Value> {
     let mut rng = Rng::new(seed ^ 0xC05);
     let r = cfg["R"].as_i64().unwrap();
-    let (objs, items) = abstract_of(&doc);
+    let (objs, mut items) = abstract_of(&doc);
+    let ids0: Vec<(u32, u16)> = doc.objects.keys().copied().collect();
     let perms = Permissions::from_bits_truncate(rng.next_u64());
     let fek: Vec<u8> = (0..32).map(|_| rng.byte()).collect();
     let ulen = if r <= 4 { canon4(user, true).len() } else { user.len() };
@@ -386,9 +412,25 @@ fn run_case(k: usize, mut doc: Document, cfg: &Value, user: &str, owner: &str, c
                     Err(e) => Err(format!("{e:?}").chars().take(60).collect()),
                 }),
             },
+            "Edit" => {
+                let pos = c["pos"].as_u64().unwrap_or(0) as usize;
+                match ids0.get(pos.wrapping_sub(1)) {
+                    _ if doc.trailer.get(b"Encrypt").is_ok() => Ok(Err("harness:encrypted".into())),
+                    Some(id) if doc.objects.get(id).map(|o| !bookkeeping(o)).unwrap_or(false) => {
+                        edit(doc.objects.get_mut(id).unwrap(), &mut rng);
+                        for it in items.iter_mut().filter(|it| it.id == *id) {
+                            if let Some(b) = lookup(&doc, it) {
+                                it.plain = b.to_vec();
+                            }
+                        }
+                        Ok(Ok(()))
+                    }
+                    _ => Ok(Err("harness:absent".into())),
+                }
+            }
             _ => panic!("harness: unknown call {call}"),
         };
-        let mut ev = json!({"ev": "Call", "case": k, "call": call,
+        let mut ev = json!({"ev": "Call", "case": k, "call": call, "pos": c.get("pos").and_then(Value::as_u64).unwrap_or(0),
             "rel": if c.get("pw").is_some() { rel(r, pw, user, owner) } else { json!({"u": "diff", "o": "diff"}) },
             "tenc": doc.trailer.get(b"Encrypt").is_ok(), "nobj": nobj(&doc),
             "same": snapshot(&doc, strict) == before, "items": observe(&doc, &items)});
@@ -413,6 +455,166 @@ fn run_case(k: usize, mut doc: Document, cfg: &Value, user: &str, owner: &str, c
         out.push(ev);
     }
     out
+}
+
+/// the caller's edit: every string of the object (and the content of a stream) gets a new value, 3 bytes longer
+fn edit(o: &mut Object, rng: &mut Rng) {
+    match o {
+        Object::String(b, _) => *b = (0..b.len() + 3).map(|_| rng.byte()).collect(),
+        Object::Array(a) => a.iter_mut().for_each(|x| edit(x, rng)),
+        Object::Dictionary(d) => d.iter_mut().for_each(|(_, x)| edit(x, rng)),
+        Object::Stream(s) => {
+            s.dict.iter_mut().for_each(|(_, x)| edit(x, rng));
+            let c: Vec<u8> = (0..s.content.len() + 3).map(|_| rng.byte()).collect();
+            s.set_content(c);
+        }
+        _ => {}
+    }
+}
+
+// ------------------------------------------------------------------------------------------------
+// files with object streams and a cross-reference stream, written by hand (ISO 32000-1 7.5.7, 7.5.8)
+
+fn ser_name(n: &[u8], out: &mut Vec<u8>) {
+    out.push(b'/');
+    for &b in n {
+        if (33..=126).contains(&b) && !b"()<>[]{}/%#".contains(&b) {
+            out.push(b);
+        } else {
+            out.extend_from_slice(format!("#{b:02X}").as_bytes());
+        }
+    }
+}
+
+fn ser_dict(d: &Dictionary, skip_length: bool, out: &mut Vec<u8>) {
+    out.extend_from_slice(b"<<");
+    for (k, v) in d.iter() {
+        if skip_length && k == b"Length" {
+            continue;
+        }
+        ser_name(k, out);
+        out.push(b' ');
+        ser(v, out);
+    }
+    out.extend_from_slice(b">>");
+}
+
+/// a direct object (strings in hexadecimal form, reals without exponent)
+fn ser(o: &Object, out: &mut Vec<u8>) {
+    match o {
+        Object::Null => out.extend_from_slice(b"null"),
+        Object::Boolean(b) => out.extend_from_slice(if *b { b"true" } else { b"false" }),
+        Object::Integer(i) => out.extend_from_slice(i.to_string().as_bytes()),
+        Object::Real(r) => out.extend_from_slice(if r.is_finite() { format!("{r}") } else { "0".to_string() }.as_bytes()),
+        Object::Name(n) => ser_name(n, out),
+        Object::String(b, _) => {
+            out.push(b'<');
+            b.iter().for_each(|x| out.extend_from_slice(format!("{x:02X}").as_bytes()));
+            out.push(b'>');
+        }
+        Object::Array(a) => {
+            out.push(b'[');
+            for (i, x) in a.iter().enumerate() {
+                if i > 0 {
+                    out.push(b' ');
+                }
+                ser(x, out);
+            }
+            out.push(b']');
+        }
+        Object::Dictionary(d) => ser_dict(d, false, out),
+        Object::Reference(id) => out.extend_from_slice(format!("{} {} R", id.0, id.1).as_bytes()),
+        Object::Stream(_) => panic!("harness: a stream is not a direct object"),
+    }
+}
+
+/// The file: ordinary objects, one unfiltered /ObjStm container per entry of `containers` (container number, members),
+/// a cross-reference stream numbered `xref_id` (/W [1 4 2]) that carries the trailer entries.
+fn assemble(doc: &Document, containers: &[(u32, Vec<(u32, u16)>)], xref_id: u32) -> Vec<u8> {
+    let mut out: Vec<u8> = b"%PDF-1.5\n%\xE2\xE3\xCF\xD3\n".to_vec();
+    let in_container: BTreeMap<(u32, u16), (u32, usize)> =
+        containers.iter().flat_map(|(c, ms)| ms.iter().enumerate().map(move |(i, m)| (*m, (*c, i)))).collect();
+    let mut entries: BTreeMap<u32, (u8, u32, u16)> = BTreeMap::new();
+    for (id, o) in doc.objects.iter() {
+        if in_container.contains_key(id) {
+            continue;
+        }
+        entries.insert(id.0, (1, out.len() as u32, id.1));
+        out.extend_from_slice(format!("{} {} obj\n", id.0, id.1).as_bytes());
+        match o {
+            Object::Stream(s) => {
+                let mut d = s.dict.clone();
+                d.set("Length", s.content.len() as i64);
+                ser_dict(&d, false, &mut out);
+                out.extend_from_slice(b"\nstream\n");
+                out.extend_from_slice(&s.content);
+                out.extend_from_slice(b"\nendstream");
+            }
+            o => ser(o, &mut out),
+        }
+        out.extend_from_slice(b"\nendobj\n");
+    }
+    for (c, ms) in containers {
+        let (mut index, mut body) = (Vec::new(), Vec::new());
+        for (i, m) in ms.iter().enumerate() {
+            index.extend_from_slice(format!("{} {} ", m.0, body.len()).as_bytes());
+            ser(&doc.objects[m], &mut body);
+            body.push(b'\n');
+            entries.insert(m.0, (2, *c, i as u16));
+        }
+        entries.insert(*c, (1, out.len() as u32, 0));
+        out.extend_from_slice(format!("{} 0 obj\n<</Type/ObjStm/N {}/First {}/Length {}>>\nstream\n", c, ms.len(), index.len(), index.len() + body.len()).as_bytes());
+        out.extend_from_slice(&index);
+        out.extend_from_slice(&body);
+        out.extend_from_slice(b"\nendstream\nendobj\n");
+    }
+    let start = out.len();
+    entries.insert(xref_id, (1, start as u32, 0));
+    let size = entries.keys().max().copied().unwrap_or(0) + 1;
+    let mut table = Vec::new();
+    for n in 0..size {
+        let (t, a, b) = if n == 0 { (0, 0, 65535) } else { entries.get(&n).copied().unwrap_or((0, 0, 0)) };
+        table.push(t);
+        table.extend_from_slice(&a.to_be_bytes());
+        table.extend_from_slice(&b.to_be_bytes());
+    }
+    let mut d = Dictionary::new();
+    for (k, v) in doc.trailer.iter() {
+        if ![&b"Type"[..], b"Size", b"W", b"Index", b"Length", b"Filter", b"DecodeParms", b"Prev", b"XRefStm"].contains(&&k[..]) {
+            d.set(k.clone(), v.clone());
+        }
+    }
+    out.extend_from_slice(format!("{xref_id} 0 obj\n<</Type/XRef/Size {size}/W[1 4 2]/Length {}", table.len()).as_bytes());
+    let mut rest = Vec::new();
+    ser_dict(&d, false, &mut rest);
+    out.extend_from_slice(&rest[2..]); // the trailer entries, closing ">>" included
+    out.extend_from_slice(b"\nstream\n");
+    out.extend_from_slice(&table);
+    out.extend_from_slice(b"\nendstream\nendobj\n");
+    out.extend_from_slice(format!("startxref\n{start}\n%%EOF").as_bytes());
+    out
+}
+
+/// `doc` written as a file with an xref stream (and, with `with_objstm`, object streams holding a seeded choice of its
+/// eligible objects: not streams, generation 0) and loaded again: the state a loader leaves.  None if it does not load.
+fn via_file(doc: &Document, with_objstm: bool, rng: &mut Rng) -> Option<(Document, Vec<u8>)> {
+    let mut doc = doc.clone();
+    doc.objects.retain(|_, o| !bookkeeping(o));
+    let top = doc.objects.keys().map(|k| k.0).max().unwrap_or(0).max(doc.max_id);
+    let mut containers: Vec<(u32, Vec<(u32, u16)>)> = vec![];
+    if with_objstm {
+        let eligible: Vec<(u32, u16)> = doc.objects.iter().filter(|(id, o)| id.1 == 0 && !matches!(o, Object::Stream(_))).map(|(id, _)| *id).collect();
+        let chosen: Vec<(u32, u16)> = eligible.into_iter().filter(|_| rng.chance(3, 4)).collect();
+        if !chosen.is_empty() {
+            let cut = if chosen.len() >= 2 && rng.chance(1, 2) { 1 + rng.below(chosen.len() - 1) } else { chosen.len() };
+            containers.push((top + 1, chosen[..cut].to_vec()));
+            if cut < chosen.len() {
+                containers.push((top + 2, chosen[cut..].to_vec()));
+            }
+        }
+    }
+    let bytes = assemble(&doc, &containers, top + 1 + containers.len() as u32);
+    guarded(|| Document::load_mem(&bytes)).ok().and_then(|r| r.ok()).map(|d| (d, bytes))
 }
 
 // ------------------------------------------------------------------------------------------------
@@ -484,14 +686,33 @@ fn concrete(o: &Value) -> Object {
     }
 }
 
-fn concrete_doc(objs: &Value) -> Document {
+/// Objects typed /ObjStm or /XRef with `file` = true describe what the loader leaves: the document is written with
+/// `assemble` (container / xref stream numbered by their positions) and loaded.
+fn concrete_doc(objs: &Value, file: bool) -> Document {
     let mut doc = Document::with_version("1.7");
-    for o in objs.as_array().unwrap() {
-        doc.add_object(concrete(o));
+    let placeholder = |o: &Value| file && o["k"] == "stream" && (o["typ"] == "ObjStm" || o["typ"] == "XRef");
+    for (i, o) in objs.as_array().unwrap().iter().enumerate() {
+        if !placeholder(o) {
+            doc.objects.insert((i as u32 + 1, 0), concrete(o));
+        }
+        doc.max_id = i as u32 + 1;
     }
     doc.trailer.set("Root", Object::Reference((1, 0)));
     doc.trailer.set("ID", Object::Array(vec![Object::String(content("id0", 16, false), StringFormat::Hexadecimal),
                                              Object::String(content("id1", 16, false), StringFormat::Hexadecimal)]));
+    if file {
+        let mut containers = vec![];
+        let mut xref_id = doc.max_id + 1;
+        for (i, o) in objs.as_array().unwrap().iter().enumerate() {
+            if placeholder(o) && o["typ"] == "ObjStm" {
+                containers.push((i as u32 + 1, o["mem"].as_array().unwrap().iter().map(|p| (p.as_u64().unwrap() as u32, 0u16)).collect()));
+            } else if placeholder(o) {
+                xref_id = i as u32 + 1;
+            }
+        }
+        let bytes = assemble(&doc, &containers, xref_id);
+        return Document::load_mem(&bytes).unwrap_or_else(|e| panic!("harness: the assembled file does not load: {e:?}"));
+    }
     doc
 }
 
@@ -643,8 +864,17 @@ fn rand_doc(rng: &mut Rng, cfg: &Value) -> Document {
     doc
 }
 
-fn rand_calls(rng: &mut Rng, cfg: &Value, user: &str, owner: &str) -> Vec<Value> {
+/// `editable`: positions (in id order) of the objects an Edit may address.  Edits are only issued where the document
+/// is expected to be unencrypted (after a decrypt with the user or owner password, before the next encrypt).
+fn rand_calls(rng: &mut Rng, cfg: &Value, user: &str, owner: &str, editable: &[usize]) -> Vec<Value> {
     let r = cfg["R"].as_i64().unwrap();
+    let edits = |rng: &mut Rng, calls: &mut Vec<Value>, num: u32, den: u32| {
+        if !editable.is_empty() && rng.chance(num, den) {
+            for _ in 0..(1 + rng.below(2)) {
+                calls.push(json!({"call": "Edit", "pos": *rng.pick(editable)}));
+            }
+        }
+    };
     let wrong = |rng: &mut Rng| -> String {
         for _ in 0..50 {
             let s = match rng.below(6) {
@@ -670,6 +900,7 @@ fn rand_calls(rng: &mut Rng, cfg: &Value, user: &str, owner: &str) -> Vec<Value>
     let mut calls = vec![json!({"call": "MakeState"})];
     if rng.chance(3, 4) {
         // the canonical life-cycle with optional detours
+        edits(rng, &mut calls, 1, 2);
         calls.push(json!({"call": "Encrypt"}));
         for _ in 0..rng.below(3) {
             let c = *rng.pick(&["Decrypt", "AuthUser", "AuthOwner", "Auth"]);
@@ -685,19 +916,34 @@ fn rand_calls(rng: &mut Rng, cfg: &Value, user: &str, owner: &str) -> Vec<Value>
         }
         calls.push(json!({"call": "Decrypt", "pw": if rng.chance(1, 2) { user.to_string() } else { owner.to_string() }}));
         if rng.chance(1, 3) {
+            edits(rng, &mut calls, 1, 2);
             calls.push(json!({"call": "Encrypt"}));
             calls.push(json!({"call": "Decrypt", "pw": pw(rng)}));
         }
     } else {
+        let mut plain = true; // the document is expected to be unencrypted
         for _ in 0..(2 + rng.below(7)) {
-            let c = *rng.pick(&["Encrypt", "Encrypt", "Decrypt", "Decrypt", "AuthUser", "AuthOwner", "Auth", "Save", "Load", "Load"]);
+            let c = *rng.pick(&["Encrypt", "Encrypt", "Decrypt", "Decrypt", "AuthUser", "AuthOwner", "Auth", "Save", "Load", "Load", "Edit"]);
+            if c == "Edit" {
+                if plain {
+                    edits(rng, &mut calls, 1, 1);
+                }
+                continue;
+            }
+            if c == "Encrypt" || c == "Load" {
+                plain = false;
+            }
             if c == "Load" && !calls.iter().any(|x| x["call"] == "Save") {
                 calls.push(json!({"call": "Save"}));
             }
             if matches!(c, "Encrypt" | "Save" | "Load") {
                 calls.push(json!({"call": c}));
             } else {
-                calls.push(json!({"call": c, "pw": pw(rng)}));
+                let p = pw(rng);
+                if c == "Decrypt" && (p == user || p == owner) {
+                    plain = true;
+                }
+                calls.push(json!({"call": c, "pw": p}));
             }
         }
     }
@@ -716,7 +962,13 @@ fn main() {
                 .par_iter()
                 .enumerate()
                 .map(|(i, c)| {
-                    let doc = if c.get("doc").is_some() { wire::json_to_doc(&c["doc"]) } else { concrete_doc(&c["objs"]) };
+                    let doc = if c.get("file").is_some() {
+                        Document::load_mem(&wire::json_to_bytes(&c["file"])).expect("harness: file of the case loads")
+                    } else if c.get("doc").is_some() {
+                        wire::json_to_doc(&c["doc"])
+                    } else {
+                        concrete_doc(&c["objs"], c["prep"] == "file")
+                    };
                     run_case(i + 1, doc, &c["cfg"], c["user"].as_str().unwrap(), c["owner"].as_str().unwrap(),
                              c["calls"].as_array().unwrap(),
                              c.get("seed").and_then(Value::as_str).and_then(|x| x.parse().ok()).unwrap_or(seed.wrapping_add(i as u64)))
@@ -736,24 +988,43 @@ fn main() {
                 let uc = rng.below(9);
                 let user = rand_string(&mut rng, uc);
                 let owner = if rng.chance(1, 6) { user.clone() } else { let oc = rng.below(9); rand_string(&mut rng, oc) };
-                let doc = rand_doc(&mut rng, &cfg);
-                let calls = rand_calls(&mut rng, &cfg, &user, &owner);
-                cases.push((cfg, user, owner, doc, calls, rng.next_u64()));
+                let mut doc = rand_doc(&mut rng, &cfg);
+                // the state of the document: built in memory, or what load_mem leaves of a file with an xref stream
+                // without / with object streams
+                let (mut prep, mut file) = ("mem", vec![]);
+                let k = rng.below(20);
+                if k >= 8 {
+                    if let Some((d, b)) = via_file(&doc, k >= 13, &mut rng) {
+                        doc = d;
+                        file = b;
+                        prep = if k >= 13 { "file-objstm" } else { "file-xrefstm" };
+                    }
+                }
+                let editable: Vec<usize> = doc.objects.values().enumerate()
+                    .filter(|(_, o)| !bookkeeping(o) && walk(o, (0, 0), &mut vec![], &Ctx { insd: false, otyp: "-", inmd: false }, &mut vec![]).is_some())
+                    .map(|(i, _)| i + 1).collect();
+                let calls = rand_calls(&mut rng, &cfg, &user, &owner, &editable);
+                cases.push((cfg, user, owner, doc, calls, rng.next_u64(), prep, file));
             }
             // the concrete inputs (document in the wire projection, passwords, calls) go to a side file
             if let Some(p) = arg(&args, "--inputs") {
                 let mut side = NdjsonOut::create(&p);
-                for (i, (cfg, user, owner, doc, calls, s)) in cases.iter().enumerate() {
-                    side.put(&json!({"case": i + 1, "cfg": cfg, "user": user, "owner": owner, "calls": calls, "seed": s.to_string(),
-                                     "doc": wire::doc_to_json(doc)}));
+                for (i, (cfg, user, owner, doc, calls, s, prep, file)) in cases.iter().enumerate() {
+                    let mut v = json!({"case": i + 1, "cfg": cfg, "user": user, "owner": owner, "calls": calls, "seed": s.to_string(),
+                                       "prep": prep, "doc": wire::doc_to_json(doc)});
+                    if !file.is_empty() {
+                        v["file"] = wire::bytes_to_json(file); // Document::load_mem(file) is the document of the case
+                    }
+                    side.put(&v);
                 }
                 side.finish();
             }
             let outs: Vec<Vec<Value>> = cases
                 .into_par_iter()
                 .enumerate()
-                .map(|(i, (cfg, user, owner, doc, calls, s))| {
+                .map(|(i, (cfg, user, owner, doc, calls, s, prep, _))| {
                     let mut evs = run_case(i + 1, doc, &cfg, &user, &owner, &calls, s);
+                    evs[0]["prep"] = json!(prep);
                     // passwords as code points, for the evidence only (not read by the trace spec)
                     evs[0]["user"] = json!(user.chars().map(|c| c as u32).collect::<Vec<_>>());
                     evs[0]["owner"] = json!(owner.chars().map(|c| c as u32).collect::<Vec<_>>());
